@@ -618,6 +618,7 @@ def check_jobs(ck, name, spec, X, Y, cfg, jobs_list):
     runs = []
     for j in jobs_list:
         c = dict(cfg, num_jobs=j)
+        np.random.seed(1000 + len(runs))  # leave the global generator in a different state before every run
         try:
             _, obs, stats, p, _ = run_callback(name, spec, X, Y, c, record=False)
         except Exception as e:  # noqa: BLE001
@@ -728,13 +729,13 @@ def run(ck: Check):
     corr_grid(ck, grid)
 
     # ---- D
-    ck.rule("D: num_jobs in {1,2,3} (and -1 once per detector in thorough) and a repeated run, fixed random_state: observed, every null statistic and the p-value must be identical")
+    ck.rule("D: num_jobs in {1,2,3} (and -1 once per detector in thorough) and a repeated run, fixed random_state (0 over-represented: a legal seed), the global generator left in a different state before every run: observed, every null statistic and the p-value must be identical")
     for name in ALL:
         for i in range(1 if not thorough else 4):
             spec = pick_spec(rng, name)
             n, m = rng.choice([(8, 6), (12, 9)])
             X, Y = gen_data(rng, name, rng.choice(["shift", "uniform"]), n, m)
-            cfg = dict(num_permutations=rng.choice([7, 16]), total=rng.choice([None, 40]), method=rng.choice(["exact", "conservative", "estimate"]), random_state=rng.randrange(1000))
+            cfg = dict(num_permutations=rng.choice([7, 16]), total=rng.choice([None, 40]), method=rng.choice(["exact", "conservative", "estimate"]), random_state=rng.choice([0, 0, rng.randrange(1, 1000)]))
             jobs = [1, 2, 3, 1] + ([-1] if thorough and i == 0 else [])
             check_jobs(ck, name, spec, X, Y, cfg, jobs)
     # unseeded runs are NOT required to repeat; nothing to check there.
